@@ -17,7 +17,8 @@ import numpy as np
 from common import *
 import tr_rngflow
 
-IMPORTS = ("From CV Require Import Base.Cmp Model.C05_Sample Model.C05_SampleR.\n"
+IMPORTS = ("From CV Require Import Base.Cmp Model.C05_Sample Model.C05_SampleR Model.C05_Push Model.C05_EpsLaw.\n"
+           "From Coq Require Import Lra.\n"
            "From Coq Require Import QArith Reals.\nFrom Interval Require Import Tactic.\n"
            "From Coq Require String. Import String.StringSyntax.\nOpen Scope string_scope. Open Scope R_scope.")
 RULE = ("lattice: Gaussian {sqrtprec,prec,cov,sqrtcov} x {scalar,vector,diag,lower,upper,nearly-lower,full(non)symmetric,sparse} "
@@ -2516,6 +2517,282 @@ def lessons4_cases(ctx, cases):
                                                "mean_kind": "vector", "iface": "rng", "Z": [[rng.randint(-8, 8) / 4 for _ in range(n)] for _ in range(n)]}))
 
 
+# ------------------------------------------------------------------------------------------------
+# third deepening round: (i) push/* -- the transformation of BASE variates (Model/C05_Push.v, theorems C05_push_*) against
+# a twin stream; (ii) gmrf-eps-law/* -- the law of the regularised neumann / periodic draws direction by direction
+# (C05_gmrf_eps_law); (iii) mhn-layout/* -- the repaired ModifiedHalfNormal._sample (C05_mhn_layout)
+# ------------------------------------------------------------------------------------------------
+PUSH_FAMILIES = ("Normal", "Uniform", "Gamma", "Beta", "Laplace", "Cauchy", "Lognormal", "InverseGamma")
+PUSH_KINDS = ("RandomState", "Generator-PCG64", "Generator-MT19937")
+
+
+def twin_uniform(t, shape):
+    return t.random_sample(shape) if hasattr(t, "random_sample") else t.random(shape)
+
+
+def push_params(rng, fam, form, n):
+    if fam == "Lognormal":
+        return [[dy(rng, -2, 2) for _ in range(n)], rng.choice([1.0, 0.25, 4.0])]
+    if fam == "Beta":           # numpy draws Ga/(Ga+Gb) when a > 1 or b > 1 (both <= 1: Johnk's rejection algorithm, not modelled)
+        def pair():
+            a = rng.choice([0.5, 1.0, 2.0, 4.0, 1.5, 3.0, 0.25]); b = rng.choice([1.5, 2.0, 3.0, 4.0]) if a <= 1 else rng.choice([0.5, 1.0, 2.0, 1.5, 0.25])
+            return (a, b) if rng.random() < 0.5 else (b, a)
+        if form == "scalar":
+            return list(pair())
+        ps = [pair() for _ in range(n)]
+        return [[a for a, _ in ps], [b for _, b in ps]]
+    return rand_params(rng, fam, form, n)
+
+
+def push_cases(ctx, cases):
+    rng = ctx.rng
+    k = 0
+    for fam in PUSH_FAMILIES:
+        enclosure = fam in ("Laplace", "Cauchy", "Lognormal")
+        for kind in PUSH_KINDS:
+            for form in ("scalar", "vector"):
+                for N in ((2,) if (enclosure and not ctx.thorough) else (1, 3)):
+                    k += 1
+                    n = 1 if (form == "scalar" and k % 2 == 0) else rng.choice([2, 3])
+                    if fam == "Lognormal" and form == "vector":
+                        n = max(n, 2)
+                    if fam == "Lognormal":
+                        kind = "RandomState"      # Gaussian._sample calls rng.randn: a numpy Generator is refused (AttributeError; rng/* cells)
+                    meta = {"op": "push", "family": fam, "form": form, "dim": n, "N": N, "kind": kind,
+                            "params": push_params(rng, fam, form, n), "seed": rng.randint(0, 10 ** 6), "pstyle": "float"}
+                    cases.append(push_case(ctx, meta))
+
+
+def rtol_const(x, rel=1e-9):
+    """a rational tolerance rel * (1 + |x|), rounded up to a dyadic"""
+    return cr(math.ldexp(math.ceil(math.ldexp(rel * (1 + abs(x)), 60)), -60))
+
+
+@failing_input(lambda m: m.get('family'))
+def push_case(ctx, meta):
+    import cuqi
+    from scipy.special import gammaincc
+    fam, N, n, kind = meta["family"], meta["N"], meta["dim"], meta["kind"]
+    cell = "push/%s/%s/%s/N=%d" % (fam, meta["form"], kind, N)
+    if fam == "Lognormal":
+        mean = np.array(meta["params"][0], dtype=float); cov = meta["params"][1]
+        d = quiet(cuqi.distribution.Lognormal, mean, cov)
+        tw = quiet(cuqi.distribution.Gaussian, mean, cov)           # a separately built Gaussian under the twin generator
+        base = np.asarray(quiet(tw._sample, N, rng=mk_rng(kind, meta["seed"])), dtype=float).reshape(n, N)
+    else:
+        d = build_univariate(meta)
+        t = mk_rng(kind, meta["seed"])
+        ps = [np.broadcast_to(np.asarray(p, dtype=float), (N, n)) for p in meta["params"]]
+        if fam == "Normal":
+            base = t.standard_normal((N, n)).T
+        elif fam in ("Uniform", "Laplace"):
+            base = twin_uniform(t, (N, n)).T
+        elif fam in ("Cauchy", "InverseGamma"):
+            base = t.uniform(size=(N, n)).T                  # scipy's default _rvs: random_state.uniform(size=...), then ppf
+        elif fam == "Gamma":
+            base = t.standard_gamma(ps[0]).T
+        elif fam == "Beta":
+            g2 = t.standard_gamma(np.stack([ps[0], ps[1]], axis=-1))        # per element: Ga then Gb
+            base = np.stack([g2[..., 0].T, g2[..., 1].T], axis=-1)         # (n, N, 2)
+    w = quiet(d.sample, N, rng=mk_rng(kind, meta["seed"]))
+    obs = np.asarray(w.samples if hasattr(w, "samples") else w, dtype=float).reshape(n, N)
+    par = lambda k, i: float(np.broadcast_to(np.asarray(meta["params"][k], dtype=float), (n,))[i])
+    rows, props, fail = [], [], None
+    def bad(i, j, ref):
+        return "%s(%s).sample(%d, rng=%s(seed %d)): component %d of draw %d is %.17g, but the transformation of the base variate %s " \
+               "of the same generator state gives %.17g" % (fam, meta["params"], N, kind, meta["seed"], i, j, obs[i, j],
+                                                            np.ravel(base[i, j]).tolist(), ref)
+    for i in range(n):
+        for j in range(N):
+            o = float(obs[i, j])
+            if fam == "Normal":
+                m_, s_, z = par(0, i), par(1, i), float(base[i, j])
+                ref = float(Fraction(m_) + Fraction(s_) * Fraction(z))
+                rows.append("PNormal %s %s %s %s" % (cq(m_), cq(s_), cq(z), cq(o)))
+            elif fam == "Uniform":
+                lo, hi, u = par(0, i), par(1, i), float(base[i, j])
+                ref = float(Fraction(lo) + (Fraction(hi) - Fraction(lo)) * Fraction(u))
+                rows.append("PUniform %s %s %s %s" % (cq(lo), cq(hi), cq(u), cq(o)))
+            elif fam == "Gamma":
+                rate, g = par(1, i), float(base[i, j])
+                ref = float(Fraction(g) / Fraction(rate))
+                rows.append("PGamma %s %s %s" % (cq(rate), cq(g), cq(o)))
+            elif fam == "Beta":
+                ga, gb = float(base[i, j, 0]), float(base[i, j, 1])
+                ref = float(Fraction(ga) / (Fraction(ga) + Fraction(gb)))
+                rows.append("PBeta %s %s %s" % (cq(ga), cq(gb), cq(o)))
+            elif fam == "Laplace":
+                loc, sc, u = par(0, i), par(1, i), float(base[i, j])
+                ref = loc - sc * math.log(2 - 2 * u) if u >= 0.5 else loc + sc * math.log(2 * u)
+                props.append("Rabs (laplace_push %s %s %s - %s) <= %s" % (cr(loc), cr(sc), cr(u), cr(o), rtol_const(o)))
+                props.append("Rabs (laplace_inv %s %s %s - %s) <= %s" % (cr(loc), cr(sc), cr(o), cr(u), rtol_const(0.0)))
+            elif fam == "Cauchy":
+                loc, sc, u = par(0, i), par(1, i), float(base[i, j])
+                ref = loc + sc * math.tan(math.pi * u - math.pi / 2)
+                props.append("Rabs (cauchy_inv %s %s %s - %s) <= %s" % (cr(loc), cr(sc), cr(o), cr(u), rtol_const(0.0)))
+                if abs(ref - loc) <= 1e3 * sc:       # away from the poles of tan the forward form is well conditioned too
+                    props.append("Rabs (cauchy_push %s %s %s - %s) <= %s" % (cr(loc), cr(sc), cr(u), cr(o), rtol_const(o, 1e-8)))
+            elif fam == "Lognormal":
+                y = float(base[i, j])
+                ref = math.exp(y)
+                props.append("Rabs (exp %s - %s) <= %s" % (cr(y), cr(o), rtol_const(o)))
+            elif fam == "InverseGamma":
+                a_, loc, sc, u = par(0, i), par(1, i), par(2, i), float(base[i, j])
+                # inversion: u = F((x - loc)/scale), F the standard inverse-gamma distribution function Gamma(a, 1/y)/Gamma(a)
+                back = float(gammaincc(a_, sc / (o - loc))) if o > loc else float("nan")
+                ref = o if abs(back - u) <= 1e-9 else float("nan")
+                if not abs(back - u) <= 1e-9 and fail is None:
+                    fail = ("InverseGamma(%s).sample(%d, rng=%s(seed %d)): component %d of draw %d is x=%.17g, but the distribution "
+                            "function of the documented law at x is %.12g while the uniform variate of the same generator state is %.12g"
+                            % (meta["params"], N, kind, meta["seed"], i, j, o, back, u))
+            if fail is None and not (abs(o - ref) <= 1e-9 * (1 + abs(ref))):
+                fail = bad(i, j, ref)
+    sig = ("%s._sample|push" % fam) if fail else ""
+    if fam == "InverseGamma":
+        # no Coq evaluation of the incomplete gamma function: oracle verdict only (theorem C05_push_invgamma takes F, Finv as hypotheses)
+        return Case(expr="true", meta=meta, cell=cell, kind="DECISION", trivial=True, impl_fail=fail, signature=sig)
+    if rows:
+        return Case(expr="check_push %s" % clist(rows), meta=meta, cell=cell, kind="EXACT", impl_fail=fail, signature=sig)
+    tac = ("unfold laplace_push, laplace_push_lo, laplace_push_hi, laplace_inv, laplace_inv_lo, laplace_inv_hi, cauchy_inv, cauchy_push. "
+           "repeat match goal with |- context [Rle_dec ?a ?b] => destruct (Rle_dec a b); [try (exfalso; lra) | try (exfalso; lra)] end. "
+           "repeat split; interval with (i_prec 100).")
+    return Case(expr=" /\\ ".join("(%s)" % q for q in props), tac=tac, meta=meta, cell=cell, kind="ENCLOSURE", impl_fail=fail, signature=sig)
+
+
+def eps_law_cases(ctx, cases):
+    rng = ctx.rng
+    precs = [1.0, 4.0, 0.25, 2.25]
+    k = 0
+    for bc in ("neumann", "periodic"):
+        for order in (0, 1, 2):
+            for (n, two_d) in ([(4, False), (5, False)] + ([(9, True)] if bc == "neumann" else []) + ([(7, False)] if ctx.thorough else [])):
+                k += 1
+                meta = {"op": "eps_law", "bc": bc, "order": order, "dim": n, "two_d": two_d, "prec": precs[k % len(precs)],
+                        "mean": [dy(rng) for _ in range(n)], "iface": ["rng", "global"][k % 2]}
+                cases.append(eps_law_case(ctx, meta))
+
+
+@failing_input('GMRF')
+def eps_law_case(ctx, meta):
+    d = build_gmrf(meta)
+    n, bc = meta["dim"], meta["bc"]
+    cell = "gmrf-eps-law/%s/order%d/%s" % (bc, meta["order"], "2d" if meta.get("two_d") else "1d")
+    m, ncalls, proto = gmrf_protocol(d, bc)
+    if proto != "solve":        # the unrepaired periodic sampler (DFT): another construction, covered by gmrf/periodic cells
+        return Case(expr="true", meta=meta, cell=cell + "/not-the-solve-construction", kind="DECISION", trivial=True)
+    prec = float(meta["prec"])
+    D = dense(d._diff_op.get_matrix())
+    P = D.T @ D                         # D is checked against the model's stencil in the gmrf/* cells
+    off, T, _ = read_affine(d, m, ncalls, meta["iface"])
+    lam, V = np.linalg.eigh(P)
+    lam = np.where(np.abs(lam) < 1e-12, 0.0, lam)
+    es = clist(["(%s, %s)" % (cq(float(lam[k])), cqv(V[:, k])) for k in range(n)])
+    expr = "check_eps_law %s %s %s %s %s" % (cnat(n), cq(prec), cqm(P), cqm(T), es)
+    # oracle (the property, with the explicit bound of C05_gmrf_eps_deviation): along every eigen-direction of the precision prec*P
+    # implied by logd the variance of the draws is the documented 1/(prec lam) up to the relative amount 2 sqrt(eps)/lam, and there
+    # is no variance along its null space
+    eps = float(np.sqrt(np.finfo(float).eps))
+    C = T @ T.T
+    fail = None
+    H = hessian_of_logd(d, n, center=np.zeros(n))
+    if not np.allclose(H, prec * P, atol=1e-6 * max(1.0, float(np.abs(P).max()) * prec)):
+        fail = "GMRF(%s, order %d): the Hessian of logd is not prec * D^T D" % (bc, meta["order"])
+    for k in range(n):
+        if fail:
+            break
+        v = V[:, k]
+        var = float(v @ C @ v)
+        if lam[k] == 0.0:
+            if abs(var) > 1e-6:
+                fail = ("GMRF(%s, order %d, dim %d): the draws have variance %.3g along a null direction of the precision "
+                        "(documented: a degenerate law with no variance there)" % (bc, meta["order"], n, var))
+        else:
+            doc = 1.0 / (prec * lam[k])
+            if abs(var - doc) > doc * (2 * eps / lam[k]) + 1e-6 * doc:
+                fail = ("GMRF(%s, order %d, dim %d): variance of the draws along the eigen-direction with eigenvalue %.6g of P is %.9g, "
+                        "documented 1/(prec lam) = %.9g (allowed relative deviation 2 sqrt(eps)/lam = %.3g)"
+                        % (bc, meta["order"], n, lam[k], var, doc, 2 * eps / lam[k]))
+    return Case(expr=expr, meta=meta, cell=cell, kind="EXACT", impl_fail=fail,
+                signature=("GMRF._sample|eps-law:%s:order%d" % (bc, meta["order"])) if fail else "")
+
+
+class MHNKernelRecorder:
+    def __init__(self, vals):
+        self.vals, self.calls, self.rngs = list(vals), [], []
+
+    def __call__(self, alpha, beta, gamma, rng=None):
+        self.calls.append((float(alpha), float(beta), float(gamma)))
+        self.rngs.append(rng)
+        return self.vals.pop(0)
+
+
+def mhn_layout_cases(ctx, cases):
+    rng = ctx.rng
+    for vector in (True, False):
+        for n in (1, 2, 3):
+            for N in (1, 2, 3):
+                a = [rng.choice([0.5, 1.0, 2.0, 3.0, 1.5]) for _ in range(n)]
+                b = [rng.choice([0.5, 1.0, 2.0, 4.0]) for _ in range(n)]
+                g = [dy(rng, -2, 2) for _ in range(n)]
+                if not vector:
+                    a, b, g = a[0], b[0], g[0]
+                meta = {"op": "mhn_layout", "vector": vector, "dim": n, "N": N, "a": a, "b": b, "g": g,
+                        "vals": [rng.randint(1, 255) / 64 for _ in range(n * N)]}
+                cases.append(mhn_layout_case(ctx, meta))
+
+
+@failing_input('ModifiedHalfNormal')
+def mhn_layout_case(ctx, meta):
+    import cuqi
+    n, N, vector = meta["dim"], meta["N"], meta["vector"]
+    def mk():
+        if vector:
+            return quiet(cuqi.distribution.ModifiedHalfNormal, np.array(meta["a"], dtype=float), np.array(meta["b"], dtype=float),
+                         np.array(meta["g"], dtype=float))
+        return quiet(cuqi.distribution.ModifiedHalfNormal, float(meta["a"]), float(meta["b"]), float(meta["g"]), geometry=n)
+    d = mk()
+    # the parameters the object reports (its getters; C04's open finding: beta / gamma return alpha) -- what its logpdf uses
+    rep = [np.atleast_1d(np.asarray(x, dtype=float)).ravel() for x in (d.alpha, d.beta, d.gamma)]
+    ps = [(float(rep[0][i]), float(rep[1][i]), float(rep[2][i])) for i in range(len(rep[0]))]
+    token = object()
+    rec = MHNKernelRecorder(meta["vals"])
+    d._MHN_sample = rec
+    raw = np.asarray(d._sample(N, rng=token), dtype=float)
+    rng_ok = all(r is token for r in rec.rngs)
+    d2 = mk(); rec2 = MHNKernelRecorder(meta["vals"]); d2._MHN_sample = rec2
+    w = quiet(d2.sample, N, rng=token)
+    raw2 = raw if raw.ndim == 2 else raw.reshape(1, -1)
+    tr = lambda t: "(%s, %s, %s)" % (cq(t[0]), cq(t[1]), cq(t[2]))
+    expr = "check_mhn_layout %s %s %s %s %s %s %s && %s" % (cbool(vector), cnat(n), cnat(N), clist([tr(t) for t in ps]), cqv(meta["vals"]),
+                                                         clist([tr(t) for t in rec.calls]), cqm(raw2) if raw2.size else "[]", cbool(rng_ok))
+    vals = np.array(meta["vals"], dtype=float)
+    comp = lambda i: ps[i] if vector else ps[0]
+    fail = None
+    if raw.shape != (n, N):
+        fail = "_sample(%d) returns an array of shape %s for dimension %d: not one row per component and one column per draw" % (N, raw.shape, n)
+    elif not np.array_equal(raw, vals.reshape(n, N)):
+        fail = "_sample(%d): entry (i, j) is not the (i N + j)-th value returned by the scalar sampler" % N
+    elif rec.calls != [comp(i) for i in range(n) for _ in range(N)]:
+        fail = "_sample(%d): component i is not drawn with the i-th parameters: scalar sampler called with %s" % (N, rec.calls)
+    elif not rng_ok:
+        fail = "_sample does not hand the given generator to the scalar sampler"
+    else:
+        fail = shape_verdict(d2, w, N)
+        if not fail and not np.array_equal(np.asarray(w.samples if N > 1 else w, dtype=float).reshape(n, N), vals.reshape(n, N)):
+            fail = "sample(%d): draw j is not column j of the array of scalar draws" % N
+    if fail:
+        fail = "ModifiedHalfNormal(%s, %s, %s) of dimension %d: %s" % (meta["a"], meta["b"], meta["g"], n, fail)
+    return Case(expr=expr, meta=meta, cell="mhn-layout/%s/dim=%d/N=%d" % ("vector" if vector else "scalar", n, N), kind="EXACT",
+                impl_fail=fail, signature=SIG_MHN_DIM if fail else "")
+
+
+def deepen3_cases(ctx, cases):
+    push_cases(ctx, cases)
+    eps_law_cases(ctx, cases)
+    mhn_layout_cases(ctx, cases)
+
+
+
 def zeros_or_refused(ctx, meta):
     if meta.get("may_refuse_ctor"):
         try:
@@ -2585,6 +2862,7 @@ def run(ctx):
         conditional_cases(ctx, cases)
         history_cases(ctx, cases)
         lessons4_cases(ctx, cases)
+        deepen3_cases(ctx, cases)
         rng_cases(ctx, cases, sites)      # also when the translator failed (no sites): the behavioural clauses still find failing inputs
         mhn_cases(ctx, cases)
     finally:
@@ -2634,6 +2912,12 @@ def classify(meta, detail):
         return "%s|history" % {"hist_gauss": "Gaussian", "hist_gmrf": "GMRF", "hist_uni": str(meta.get("family")), "hist_lognormal": "Lognormal"}[op]
     if op in ("mhn", "mhn_public"):
         return "ModifiedHalfNormal._MHN_sample|scheme"
+    if op == "push":
+        return "%s._sample|push" % meta.get("family")
+    if op == "eps_law":
+        return "GMRF._sample|eps-law:%s:order%s" % (meta.get("bc"), meta.get("order"))
+    if op == "mhn_layout":
+        return SIG_MHN_DIM
     return "C05"
 
 
@@ -2647,6 +2931,8 @@ REBUILD = {"gaussian": lambda ctx, m: [gaussian_case(ctx, m)], "lognormal": lamb
            "l4_alias_uni": lambda ctx, m: [alias_time_uni_case(ctx, m)], "l4_zeros": lambda ctx, m: [zeros_or_refused(ctx, m)],
            "l4_udd": lambda ctx, m: [udd_buffer_case(ctx, m)], "l4_twin": lambda ctx, m: [int_twin_case(ctx, m)],
            "l4_copy": lambda ctx, m: [shallow_copy_case(ctx, m)],
+           "push": lambda ctx, m: [push_case(ctx, m)], "eps_law": lambda ctx, m: [eps_law_case(ctx, m)],
+           "mhn_layout": lambda ctx, m: [mhn_layout_case(ctx, m)],
            "mhn_helper": lambda ctx, m: [mhn_helper_case(ctx, m)], "gauss_exact": lambda ctx, m: [gaussian_exact_case(ctx, m)], "entry": lambda ctx, m: [entry_case(ctx, m)],
            "hist_gauss": lambda ctx, m: [gaussian_history_case(ctx, m)], "hist_gmrf": lambda ctx, m: [gmrf_history_case(ctx, m)],
            "hist_uni": lambda ctx, m: [univariate_history_case(ctx, m)], "hist_lognormal": lambda ctx, m: [lognormal_history_case(ctx, m)]}
